@@ -479,6 +479,35 @@ func genC03(r *rand.Rand, n int, exhaustive bool, out func(J), next func() int) 
 		}
 		out(tag(run(Spec{Graphs: gs, Query: q.text()}, false), "bounds", next()))
 	}
+	// (3b') the full grid clause interval x global bound over a fixed graph with anchors exactly at, between and around every
+	// bound used (updateTimeBounds must keep the tighter bound on both sides; closed intervals)
+	{
+		grid := []string{
+			"2015-06-01T00:00:00Z", "2016-01-01T00:00:00Z", "2016-02-01T00:00:00Z", "2016-03-01T00:00:00Z", "2016-04-01T00:00:00Z",
+			"2016-06-01T00:00:00-08:00", "2016-12-01T00:00:00Z", "2016-12-15T00:00:00Z", "2017-01-01T00:00:00Z", "2017-06-01T00:00:00Z",
+		}
+		var fixed []string
+		for i, a := range grid {
+			fixed = append(fixed, fmt.Sprintf("/u<a>\t\"q\"@[%s]\t/u<n%d>", a, i))
+		}
+		fixed = append(fixed, "/u<a>\t\"q\"@[]\t/u<b>", "/u<b>\t\"p\"@[2016-03-01T00:00:00Z]\t/u<a>")
+		gg := [][]string{fixed}
+		for li, l := range bnds {
+			for ui, u := range bnds {
+				if li > ui && ui != 0 {
+					continue
+				}
+				for _, tl := range tails {
+					c := fmt.Sprintf("?s \"q\"@[%s,%s] ?o", l, u)
+					if (li+ui)%2 == 1 {
+						c = fmt.Sprintf("/u<a> \"q\"@[%s,%s] ?o", l, u)
+					}
+					q := query{clauses: []string{c}, optional: []bool{false}, from: 1, tail: tl}
+					out(tag(run(Spec{Graphs: gg, Query: q.text()}, false), "bounds-grid", next()))
+				}
+			}
+		}
+	}
 	// (3c) every driver shape (which of S, P, O are constants) on a temporal triple of the data, under a global bound
 	for i := 0; i < n/10; i++ {
 		gs = graphsFor(r, 1+r.Intn(2), 10+r.Intn(12))
